@@ -2,7 +2,10 @@
 (* Trace validation for C08 / ObjectPool: each recorded alloc/free of the real pool must be the action of  *)
 (* the handle-level specification Pool with the logged address; after every call the probe type's global    *)
 (* constructor/destructor counters, the address the last constructor/destructor ran on, and the contents    *)
-(* read back from EVERY object in use must be what the specification says.                                   *)
+(* read back from EVERY complete object in use must be what the specification says.  Re-entrant calls are     *)
+(* recorded as brackets: "cbeg" is logged by the element's constructor when it starts (with its own address),   *)
+(* "cend" after alloc() returned that object (or its constructor threw); "dbeg" by the destructor when it        *)
+(* starts, "dend" after free() returned; everything in between was called from inside.                           *)
 EXTENDS Pool, Json, IOUtils
 Log == ndJsonDeserialize(IOEnv.TRACE)
 VARIABLE l
@@ -17,12 +20,16 @@ Post ==
   /\ \A j \in 1 .. Len(Ev.vals) : Ev.vals[j].a \in DOMAIN inUse' /\ inUse'[Ev.vals[j].a] = Ev.vals[j].v
   /\ \A i, j \in 1 .. Len(Ev.vals) : i # j => Ev.vals[i].a # Ev.vals[j].a
 TInit == PInit /\ l = 1
-TReset == IsEv("Reset") /\ inUse' = NoObjects /\ nctor' = 0 /\ ndtor' = 0 /\ lastC' = 0 /\ lastD' = 0 /\ pfresh' = TRUE /\ exists' = FALSE
+TReset == IsEv("Reset") /\ inUse' = NoObjects /\ stk' = <<>> /\ nctor' = 0 /\ ndtor' = 0 /\ lastC' = 0 /\ lastD' = 0 /\ pfresh' = TRUE /\ exists' = FALSE
 TNext ==
   \/ TReset
   \/ IsEv("pnew") /\ PNew /\ Post
   \/ IsEv("palloc") /\ PAlloc(Ev.a, Ev.v) /\ Post
   \/ IsEv("pfree") /\ PFree(Ev.a) /\ Post
+  \/ IsEv("cbeg") /\ PCBeg(Ev.a, Ev.v) /\ Post
+  \/ IsEv("cend") /\ PCEnd(Ev.a, Ev.th) /\ Post
+  \/ IsEv("dbeg") /\ PDBeg(Ev.a) /\ Post
+  \/ IsEv("dend") /\ PDEnd /\ Post
   \/ IsEv("pdel") /\ PDel /\ Post
 TSpec == TInit /\ [][TNext]_tvars
 Progress == TLCSet(42, IF l > TLCGet(42) THEN l ELSE TLCGet(42))
